@@ -294,12 +294,13 @@ pub fn write_replay(
     let out = run_one(p, scn, sched_seed);
     let _ = std::fs::create_dir_all(dir);
     let path = format!(
-        "{}/{}-{}-{}-{}.json",
+        "{}/{}-{}-{}-{}{}.json",
         dir,
         p.id(),
         opts.seed,
         index,
-        v.rule.replace('.', "_")
+        v.rule.replace('.', "_"),
+        if v.class.is_empty() { String::new() } else { format!("-{}", v.class) }
     );
     let j = json!({
         "property": p.id(),
